@@ -269,13 +269,20 @@ func VH_C10h() {
 		return f
 	}
 	before := snap()
-	op := vsym.Choice("op", 5)
-	if op != 3 {
+	op := vsym.Choice("op", 6)
+	if op != 3 && op != 5 {
 		// the router trims slashes at the end of the path: such a key cannot be named in a URL
 		vsym.Assume(k1[kl-1] != '/')
 	}
 	wrote := false
 	switch op {
+	case 5: // browser form upload naming the key in a form field
+		r := Do(h, FormReq("/bkt", map[string]string{"key": k1, "X-Amz-Meta-A": "form"}, []byte("F")))
+		wrote = r.Code() == 200
+		if wrote {
+			got := readObj(b, "bkt", k1)
+			vsym.Assert(got.ok && got.body == "F" && got.meta == "form", "C10h/form-stored-under-the-addressed-key")
+		}
 	case 4: // copy from the fixed key x, overriding one metadata value
 		r := Do(h, Req{Method: "PUT", Path: "/bkt/" + k1, Header: http.Header{"X-Amz-Copy-Source": {"/bkt/x"}, "X-Amz-Meta-A": {"copied"}}})
 		wrote = r.Code() == 200
